@@ -95,7 +95,14 @@ Section Hyp.
     destruct flags as [|w flags]; [reflexivity|]. simpl in H. apply andb_true_iff in H. destruct H as [H1 H2].
     simpl. rewrite map_app, (IH _ H2). f_equal.
     destruct (arg_name a) as [x|]; [|reflexivity]. destruct w; [|reflexivity]. simpl.
-    apply Nat.eqb_eq in H1. rewrite H1. reflexivity.
+    apply andb_true_iff in H1. destruct H1 as [H1 _]. apply Nat.eqb_eq in H1. rewrite H1. reflexivity.
+  Qed.
+
+  Lemma names_agree_wc : forall D args, names_agree G D args = true ->
+    forallb (fun a => match arg_name a with Some x => wc G x | None => true end) args = true.
+  Proof.
+    intros D args H. unfold names_agree in H. rewrite forallb_forall in *. intros a Ha. specialize (H a Ha).
+    destruct (arg_name a); [|reflexivity]. apply andb_true_iff in H. apply H.
   Qed.
 
   Definition hyp_stmt_spec (s : stmt A) : Prop :=
@@ -122,8 +129,10 @@ Section Hyp.
   Proof.
     intros s. induction s using stmt_ind'; unfold hyp_stmt_spec; intros ok D acc Hh; simpl in *.
     - rewrite app_nil_r. auto.
-    - apply andb_true_iff in Hh. destruct Hh as [H1 H2]. apply Nat.eqb_eq in H2. rewrite H2. auto.
-    - apply andb_true_iff in Hh. destruct Hh as [H1 H2]. apply Nat.eqb_eq in H2. rewrite H2. auto.
+    - apply andb_true_iff in Hh. destruct Hh as [Hh H3]. apply andb_true_iff in Hh. destruct Hh as [H1 H2].
+      apply Nat.eqb_eq in H2. rewrite H2. auto.
+    - apply andb_true_iff in Hh. destruct Hh as [Hh H3]. apply andb_true_iff in Hh. destruct Hh as [H1 H2].
+      apply Nat.eqb_eq in H2. rewrite H2. auto.
     - destruct (fold_left (hyp_s sigs G) b1 (ok, D)) as [ok1 D1] eqn:E1.
       destruct (hyp_list b2 H0 ok1 D1 (acc ++ map (rootG G) (flat_map (wn_s W) b1)) Hh) as [Hok1 [Hl2 Hw2]].
       assert (F : fst (fold_left (hyp_s sigs G) b1 (ok, D)) = true) by (rewrite E1; assumption).
@@ -133,13 +142,17 @@ Section Hyp.
     - destruct (hyp_list b H ok D acc Hh) as [Hok [Hl1 Hw1]]. auto.
     - rewrite app_nil_r. auto.
     - rewrite app_nil_r.
-      apply andb_true_iff in Hh. destruct Hh as [Hh H4]. apply andb_true_iff in Hh. destruct Hh as [Hh H3].
-      apply andb_true_iff in Hh. destruct Hh as [H1 H2].
+      apply andb_true_iff in Hh. destruct Hh as [Hh H5]. apply andb_true_iff in Hh. destruct Hh as [Hh H4].
+      apply andb_true_iff in Hh. destruct Hh as [Hh H3]. apply andb_true_iff in Hh. destruct Hh as [H1 H2].
       apply Nat.eqb_eq in H2, H3. split; [assumption|]. split; [|reflexivity].
-      rewrite H4, andb_true_r. apply Nat.eqb_eq. congruence.
+      rewrite H4, andb_true_r.
+      assert (E : Nat.eqb (rootG G sb) (rootG G src) = true) by (apply Nat.eqb_eq; congruence).
+      rewrite E. simpl.
+      destruct (lookup x G) as [b|]; [|discriminate].
+      apply andb_true_iff in H5. destruct H5 as [H5 H6]. rewrite H5. simpl. apply Nat.eqb_eq in H6. apply Nat.eqb_eq. congruence.
     - apply andb_true_iff in Hh. destruct Hh as [H1 H2]. split; [assumption|].
       destruct (nth_error sigs f) as [fs|]; [|discriminate]. apply andb_true_iff in H2. destruct H2 as [H2 H3].
-      split; [assumption|]. rewrite (wr_args_agree _ _ _ H3). reflexivity.
+      split; [rewrite H2, (names_agree_wc _ _ H3); reflexivity|]. rewrite (wr_args_agree _ _ _ H3). reflexivity.
   Qed.
 End Hyp.
 
@@ -209,6 +222,7 @@ Section Kind.
     - destruct (lookup src G); [|discriminate]. apply andb_true_iff in Hl. destruct Hl as [_ Hl].
       destruct (lookup x G); [reflexivity | discriminate].
     - destruct (nth_error sigs f) as [fs|]; [|discriminate].
+      apply andb_true_iff in Hl. destruct Hl as [Hl _].
       rewrite forallb_app. rewrite (sites_ok_length _ _ _ Hl), Nat.eqb_refl. simpl.
       apply call_obl_kind; assumption.
   Qed.
@@ -234,40 +248,44 @@ Proof.
   - intros H. exists x. split; [assumption | apply Nat.eqb_refl].
 Qed.
 
-Lemma name_const_written : forall G NC x b, lookup x G = Some b -> In (rootG G x) NC -> name_const NC x b = false.
+Lemma name_const_written : forall G NC x b, lookup x G = Some b -> wc G x = true -> In (rootG G x) NC ->
+  name_const G NC x b = false.
 Proof.
-  intros G NC x b L H. unfold rootG in H. rewrite L in H. unfold name_const.
-  destruct (b_org b); [|reflexivity|]; apply negb_false_iff; apply mem_id_In; assumption.
+  intros G NC x b L Hc H. unfold rootG in H at 1. unfold wc in Hc. rewrite L in H, Hc. unfold name_const.
+  destruct (b_org b); [|reflexivity|]; apply negb_false_iff; apply mem_id_In; [assumption|].
+  apply Nat.eqb_eq in Hc. rewrite Hc. assumption.
 Qed.
 
 Section Const.
   Variables (d : prec) (W : list (list bool)) (sigs : list (list farg)) (NC : list ident) (G : env).
 
   Lemma call_obl_const : forall args flags fs, sites_ok G args fs = true ->
+    forallb (fun a => match arg_name a with Some x => wc G x | None => true end) args = true ->
     (forall x, In x (wn_args args flags) -> In (rootG G x) NC) ->
     forallb ok_const (call_obl d NC G args flags fs) = true.
   Proof.
-    induction args as [|a args IH]; intros flags fs H1 H2; [reflexivity|].
+    induction args as [|a args IH]; intros flags fs H1 Hc H2; [reflexivity|].
     destruct flags as [|w flags]; [reflexivity|]. destruct fs as [|f fs]; [reflexivity|].
     simpl in H1. apply andb_true_iff in H1. destruct H1 as [S1 S2].
+    simpl in Hc. apply andb_true_iff in Hc. destruct Hc as [C1 C2].
     simpl. rewrite forallb_app. apply andb_true_iff. split.
-    2:{ apply IH; [assumption|]. intros x Hx. apply H2. simpl. apply in_or_app. right. assumption. }
+    2:{ apply IH; [assumption|assumption|]. intros x Hx. apply H2. simpl. apply in_or_app. right. assumption. }
     assert (Hwr : forall x, arg_name a = Some x -> w = true -> In (rootG G x) NC).
     { intros x Hn Hw. apply H2. simpl. rewrite Hn, Hw. left. reflexivity. }
-    destruct a as [x rw n|x n|]; simpl.
+    destruct a as [x rw n|x n|]; simpl in C1; simpl.
     - destruct (lookup x G) as [b|] eqn:L; [|reflexivity]. simpl. rewrite andb_true_r.
-      destruct f as [fx|fx fp fm fsh]; simpl in *; [destruct (name_cty NC x b); reflexivity|].
+      destruct f as [fx|fx fp fm fsh]; simpl in *; [destruct (name_cty G NC x b); reflexivity|].
       rewrite L in S1.
       unfold name_cty. destruct fsh as [|k|k]; simpl.
       + destruct (b_shape b); simpl; try reflexivity;
-          (destruct w; simpl; [rewrite (name_const_written G NC x b L (Hwr x eq_refl eq_refl)); reflexivity | apply implb_true_r]).
+          (destruct w; simpl; [rewrite (name_const_written G NC x b L C1 (Hwr x eq_refl eq_refl)); reflexivity | apply implb_true_r]).
       + destruct (b_shape b); simpl; try reflexivity;
-          (destruct w; simpl; [rewrite (name_const_written G NC x b L (Hwr x eq_refl eq_refl)); reflexivity | apply implb_true_r]).
+          (destruct w; simpl; [rewrite (name_const_written G NC x b L C1 (Hwr x eq_refl eq_refl)); reflexivity | apply implb_true_r]).
       + destruct (b_shape b); simpl in *; try reflexivity. rewrite !andb_false_r in S1. discriminate.
     - destruct (lookup x G) as [b|] eqn:L; [|reflexivity]. simpl. rewrite andb_true_r.
       apply andb_true_iff. split.
       + destruct f as [fx|fx fp fm fsh]; simpl; [reflexivity|]. destruct fsh; simpl; try reflexivity. apply eqb_reflx.
-      + destruct w; simpl; [rewrite (name_const_written G NC x b L (Hwr x eq_refl eq_refl)); reflexivity | apply implb_true_r].
+      + destruct w; simpl; [rewrite (name_const_written G NC x b L C1 (Hwr x eq_refl eq_refl)); reflexivity | apply implb_true_r].
     - destruct f; reflexivity.
   Qed.
 
@@ -277,9 +295,9 @@ Section Const.
   Proof.
     intros s. induction s using stmt_ind'; intros Hl Hwn; simpl in *; try reflexivity.
     - destruct (lookup x G) as [b|] eqn:L; [|reflexivity]. simpl.
-      rewrite (name_const_written G NC x b L (Hwn x (or_introl eq_refl))). reflexivity.
+      rewrite (name_const_written G NC x b L Hl (Hwn x (or_introl eq_refl))). reflexivity.
     - destruct (lookup x G) as [b|] eqn:L; [|reflexivity]. simpl.
-      rewrite (name_const_written G NC x b L (Hwn x (or_introl eq_refl))). reflexivity.
+      rewrite (name_const_written G NC x b L Hl (Hwn x (or_introl eq_refl))). reflexivity.
     - apply andb_true_iff in Hl. destruct Hl as [L1 L2]. rewrite forallb_app, !forallb_flat_map.
       assert (K : forall b, Forall (fun s => local_hyp_s sigs G s = true -> (forall x, In x (wn_s W s) -> In (rootG G x) NC) ->
                                             forallb ok_const (obl_s d W sigs NC G s) = true) b ->
@@ -290,14 +308,18 @@ Section Const.
       rewrite (K _ H L1), (K _ H0 L2); [reflexivity | |]; intros x Hx; apply Hwn; apply in_or_app; auto.
     - rewrite forallb_flat_map. rewrite forallb_forall in *. rewrite Forall_forall in H. intros y Hy.
       apply H; auto. intros x Hx. apply Hwn. apply in_flat_map. exists y. auto.
-    - apply andb_true_iff in Hl. destruct Hl as [L1 L2].
+    - apply andb_true_iff in Hl. destruct Hl as [Hl L3]. apply andb_true_iff in Hl. destruct Hl as [L1 L2].
       destruct (lookup src G) as [bs|] eqn:Ls; [|reflexivity].
       destruct (lookup x G) as [bx|] eqn:Lx; [|discriminate]. simpl. rewrite andb_true_r.
-      apply andb_true_iff in L2. destruct L2 as [L2 L3]. apply Nat.eqb_eq in L1, L3.
-      unfold name_const at 2. destruct (b_org bx); try discriminate. rewrite L3.
-      unfold rootG in L1. rewrite Ls in L1. unfold name_const.
-      destruct (b_org bs); subst; simpl; try reflexivity; destruct (mem_id _ NC); reflexivity.
+      apply andb_true_iff in L3. destruct L3 as [L3 L5]. apply andb_true_iff in L3. destruct L3 as [L3 L4].
+      apply Nat.eqb_eq in L1, L4.
+      unfold name_const at 2. destruct (b_org bx); try discriminate. rewrite L4, L1.
+      unfold wc in L2. rewrite Ls in L2. unfold rootG at 2. rewrite Ls. unfold name_const.
+      destruct (b_org bs); simpl; try reflexivity.
+      + destruct (mem_id src NC); reflexivity.
+      + apply Nat.eqb_eq in L2. rewrite L2. destruct (mem_id (b_root bs) NC); reflexivity.
     - destruct (nth_error sigs f) as [fs|]; [|reflexivity].
+      apply andb_true_iff in Hl. destruct Hl as [Hl1 Hl2].
       rewrite forallb_app. apply andb_true_iff. split; [destruct (Nat.eqb _ _); reflexivity|].
       apply call_obl_const; assumption.
   Qed.
